@@ -63,6 +63,7 @@ type vfcAttempt struct {
 	IDs    []int
 	before map[int]int // arrivals at the nodes before this attempt
 	putErr bool        // a Put was refused: Exec/Dispatch return that error before sending anything
+	posIDs []int       // command id at every position of the batcher's index (-1: a ping, which has no id)
 }
 
 type vfcResult struct {
@@ -202,7 +203,12 @@ func vfcRun(scn *vfcScn) (*vfcResult, error) {
 			perr := b.Put(cm.Name, args...)
 			rs := VerifRoutes(b)
 			if cm.Name == "ping" {
-				continue // routed to a random node, answered PONG; not part of the trace
+				// routed to a random node, answered PONG; not part of the trace — but it does
+				// occupy a position of the batcher's index (VerifRoutes / VerifUnsent positions)
+				for len(at.posIDs) < len(rs) {
+					at.posIDs = append(at.posIDs, -1)
+				}
+				continue
 			}
 			if perr != nil || len(rs) != before+1 {
 				res.Notes = append(res.Notes, fmt.Sprintf("put-rejected:%d:%s:%s", cm.ID, vfcErrClass(perr), cm.Name))
@@ -218,6 +224,7 @@ func vfcRun(scn *vfcScn) (*vfcResult, error) {
 			n := d.NodeOfAddr(rs[len(rs)-1])
 			at.Routes = append(at.Routes, n)
 			at.IDs = append(at.IDs, cm.ID)
+			at.posIDs = append(at.posIDs, cm.ID)
 			d.Log(fmt.Sprintf("P:%d:%d:%d:%d", i, cm.ID, cm.Keys[0], n))
 		}
 		if senderTxn {
@@ -255,8 +262,8 @@ func vfcRun(scn *vfcScn) (*vfcResult, error) {
 		// everything else was flushed before the first reply was read and must arrive
 		unsent := map[int]bool{}
 		for _, p := range VerifUnsent(b) {
-			if p < len(at.IDs) {
-				unsent[at.IDs[p]] = true
+			if p < len(at.posIDs) && at.posIDs[p] >= 0 {
+				unsent[at.posIDs[p]] = true
 			}
 		}
 		var sent []int
